@@ -221,6 +221,8 @@ impl<L: Language, N: Analysis<L>> EGraph<L, N> {
         syn_enode: L,
     ) -> Id {
         let c_id = Id(self.unionfind_len()); // Pick the next unused Id.
+        #[cfg(slotted_egraphs_verif)]
+        crate::verif::event("alloc", c_id.0);
 
         let syn_slots = syn_enode.slots();
         let proven_perm =
